@@ -344,6 +344,9 @@ class Tract:
 
         # Whether we have parsed this Tract and committed the results
         self.parse_complete = False
+        # The flags that were generated by the most recent committed parse
+        # (so that re-parsing replaces them, rather than adding to them).
+        self._parse_generated_flags = None
 
         # list of warning flags
         self.w_flags = []
@@ -930,6 +933,7 @@ class Tract:
 
             # Pull the preprocessed text from the parser.
             self.pp_desc = parser.text
+            self._parse_generated_flags = parser.generated_flags
 
         return parser.lots + parser.qqs
 
